@@ -223,3 +223,26 @@ package meta
 //@   requires 0 <= i && i < len(a) && 0 <= j && j < len(a)
 //@   ensures result == (eff_end(a[i]) < eff_end(a[j]) || (eff_end(a[i]) == eff_end(a[j]) && a[i].StartTime < a[j].StartTime))
 //@   assigns nothing
+
+// ================================================================ C19: authorization fails closed, per database
+//@ prop C19
+
+// A grant on one database never authorises another: privileges are looked up under exactly the given name.
+//@ func (*UserInfo).AuthorizeDatabase
+//@   requires u != nil
+//@   ensures result == (u.Admin || u.Rwuser || privilege == 0 || ((database in u.Privileges) && (u.Privileges[database] == privilege || u.Privileges[database] == 3)))
+//@   assigns nothing
+
+// Every privilege a statement requires is checked against the database the statement names
+// (the request's database only when the statement names none); any denial makes the query fail.
+//@ func (*UserInfo).AuthorizeQuery
+//@   requires u != nil
+//@   ghost denied bool = false
+//@   call (*UserInfo).AuthorizeDatabase
+//@     requires arg1 == (p.Name != "" ? p.Name : database)
+//@     set denied = denied || !ret0
+//@   ensures result == nil && !u.Admin && !u.Rwuser ==> !denied
+//@   loop 1
+//@     invariant !denied
+//@   loop 2
+//@     invariant !denied
